@@ -1,4 +1,6 @@
 import GBS.Lemmas.GenClosed
+import Mathlib.Tactic.Linarith
+import Mathlib.Tactic.Ring
 /-!
 # C07 — a stochastic object stops growing at the first unit that exceeds its drawn mass
 
@@ -250,5 +252,45 @@ private def exS : Stoch :=
 example : (match genStoch exS 10 none [.pick 0, .draw 30, .pick 0, .pick 1, .pick 0, .pick 1, .pick 0, .pick 1, .pick 0, .pick 1] with
     | .ok (m, tr, []) => m.insts.length == 4 && tr.getLast? == some (.units 2)
     | _ => false) = true := by decide +kernel
+
+/-- along a chain of `add_repeat_unit` steps every state has gained at least `mmin` per step -/
+theorem unitChain_mass {o : Stoch} {mmin : Rat} (hm : ∀ c tok k d, o.entry c = some (tok, k, d) → mmin ≤ tok.mass)
+    {s : Mol} {l : List Mol} (h : UnitChain o s l) :
+    ∀ i (hi : i < l.length), s.mass + ((i + 1 : Nat) : Rat) * mmin ≤ (l[i]'hi).mass := by
+  induction h with
+  | nil s => intro i hi; simp at hi
+  | cons ω t ω' hadd _ ih =>
+    rename_i s s1 rest
+    obtain ⟨tok, ⟨c, k, d, hent⟩, -, hmass⟩ := addUnit_one_instance hadd
+    have htok := hm c tok k d hent
+    intro i hi
+    cases i with
+    | zero => simp only [List.getElem_cons_zero]; push_cast; linarith
+    | succ j =>
+      simp only [List.getElem_cons_succ]
+      have := ih j (by simpa using hi)
+      push_cast at this ⊢
+      linarith
+
+/-- **C07 (block size bound)**: an object whose reachable tokens weigh at least `mmin > 0` grows by at most `⌊T / mmin⌋ + 1` units:
+if the loop returned after `k` units (`k = |us| + 1` in the stop rule) then `(k − 1)·mmin ≤ T` -/
+theorem C07_block_size_bound (o : Stoch) (mmin : Rat) (hm : ∀ c tok k d, o.entry c = some (tok, k, d) → mmin ≤ tok.mass)
+    (T : Rat) (f n : Nat) (s : Mol) (ω : Oracle) (r : Mol) (tr : Trace) (ω' : Oracle)
+    (h : growLoop o s.mass T f n s ω = .ok (r, tr, ω')) :
+    ∃ k : Nat, 1 ≤ k ∧ tr.getLast? = some (.units (n + k)) ∧ (2 ≤ k → ((k - 1 : Nat) : Rat) * mmin ≤ T) := by
+  obtain ⟨us, u, hch, hall, -, hlast⟩ := C07_stop_rule o s.mass T f n s ω r tr ω' h
+  refine ⟨us.length + 1, by omega, by rw [hlast]; congr 2, ?_⟩
+  intro hk
+  have hpos : 0 < us.length := by omega
+  have hi : us.length - 1 < (us ++ [u]).length := by simp; omega
+  have hm1 := unitChain_mass hm hch (us.length - 1) hi
+  have hget : (us ++ [u])[us.length - 1]'hi = us[us.length - 1]'(by omega) := by
+    rw [List.getElem_append_left]
+  rw [hget] at hm1
+  have hle := (hall _ (List.getElem_mem (by omega : us.length - 1 < us.length))).2
+  have hc : us.length - 1 + 1 = us.length + 1 - 1 := by omega
+  rw [hc] at hm1
+  linarith
+
 
 end GBS
